@@ -492,6 +492,21 @@ var orderTemplates = []struct {
 	{"a = [[1], [5]]\nn = 0\nfunc k() {\nn++\nreturn n - 1\n}\na[k()][1] = 2\nprobe([a, n])", []string{"(l (l (l (i 1) (i 2)) (l (i 5))) (i 1))"}},
 	{"ms = make([]map[string]int64, 2)\nn = 0\nfunc k() {\nn++\nreturn n - 1\n}\nms[k()][\"x\"] = 1\nprobe([len(ms[0]), len(ms[1]), n])", []string{"(l (i 1) (i 0) (i 1))"}},
 	{"ss = [\"ab\", \"cd\"]\nn = 0\nfunc k() {\nn++\nreturn n - 1\n}\nss[k()][2] = \"!\"\nprobe([ss, n])", []string{"(l (l (s 616221) (s 6364)) (i 1))"}},
+	// `target op= e` and `target++` evaluate the operands of the TARGET once (known finding C07: the grammar expands them to
+	// `target = target op e` sharing the target's subtree, which the interpreter evaluates for the read and again for the store)
+	{"r = [0, 0]\nn = 0\nfunc k() {\nn++\nreturn 0\n}\nr[k()] += 5\nprobe([r, n])", []string{"(l (l (i 5) (i 0)) (i 1))"}},
+	{"q = [0, 0]\nn = 0\nfunc k() {\nn++\nreturn 0\n}\nq[k()]++\nprobe([q, n])", []string{"(l (l (i 1) (i 0)) (i 1))"}},
+	{"rc = [0, 0, 0]\na = make(chan int64, 3)\na <- 0\na <- 1\na <- 2\nrc[<-a] += 5\nprobe([rc, len(a)])", []string{"(l (l (i 5) (i 0) (i 0)) (i 2))"}},
+	// a literal is evaluated every time control reaches it - also one made of signs and negations only, in a loop, in a function called again
+	{"r = 0\nfor i = 0; i < 3; i++ {\nx = [-probe(i), 1]\nr += x[0]\n}\nprobe(r)", []string{"(i 0)", "(i 1)", "(i 2)", "(i -3)"}},
+	{"func f() {\nreturn [!probe(true), -probe(2), ^probe(0)]\n}\nf()\nf()\nprobe(9)", []string{"(b 1)", "(i 2)", "(i 0)", "(b 1)", "(i 2)", "(i 0)", "(i 9)"}},
+	{"n = 0\nfunc next() {\nn++\nreturn n\n}\nfunc g() {\nreturn [-next()]\n}\nprobe([g(), g(), g()])", []string{"(l (l (i -1)) (l (i -2)) (l (i -3)))"}},
+	{"for k in [1, 2] {\nm = {\"a\": -probe(k)}\n}", []string{"(i 1)", "(i 2)"}},
+	// the operand of a slice expression is evaluated once, whichever bounds are written
+	{"func pop() {\nprobe(\"pop\")\nreturn [1, 2, 3]\n}\nprobe(pop()[probe(1):])", []string{"(s 706f70)", "(i 1)", "(l (i 2) (i 3))"}},
+	{"func pop() {\nprobe(\"pop\")\nreturn [1, 2, 3]\n}\nprobe(pop()[:probe(2)])", []string{"(s 706f70)", "(i 2)", "(l (i 1) (i 2))"}},
+	{"func pop() {\nprobe(\"pop\")\nreturn \"abc\"\n}\nprobe(pop()[probe(0):probe(1)])", []string{"(s 706f70)", "(i 0)", "(i 1)", "(s 61)"}},
+	{"q = [[1, 2], [3, 4, 5]]\nn = 0\nfunc take() {\nn++\nreturn q[n - 1]\n}\nprobe([take()[1:], n])", []string{"(l (l (i 2)) (i 1))"}},
 	// an argument a Go function's parameter does not accept is evaluated once, the call fails, nothing is evaluated again
 	{"try {\nwantsptr(probe(1))\n} catch e {\nprobe(-1)\n}", []string{"(i 1)", "(i -1)"}},
 	{"n = 0\nfunc k() {\nn++\nreturn n\n}\ntry {\nwantsptr(k())\n} catch e {\nprobe(-1)\n}\nprobe(n)", []string{"(i -1)", "(i 1)"}},
